@@ -151,7 +151,14 @@ def flow_ctx_tables():
     spec = importlib.util.spec_from_file_location("tables_row", os.path.join(here, "..", "translator", "tables_row.py"))
     mod = importlib.util.module_from_spec(spec)
     spec.loader.exec_module(mod)
-    ctx, _ = mod.ctx_table(FlowRowModel, flow_desc())
+    try:
+        ctx, _ = mod.ctx_table(FlowRowModel, flow_desc())
+    except Exception as e:
+        if type(e).__name__ not in ("Refuse", "ModuleNotFoundError"):
+            raise
+        # the translator refuses this tree (reported by the driver as a broken translator): the generators and the
+        # oracle still need the tables
+        ctx, _ = mod.ctx_table(FlowRowModel, flow_desc(), probe_strip=False)
     return ctx
 
 
